@@ -24,6 +24,12 @@ PROPS = {
         "trusted": COMMON_TRUST + ["allocation and wall-clock bounds are measured on the real code by the harness (counting allocator, timer, watchdog); the model proves totality and panic-freedom only"],
         "assumptions": [],
     },
+    "C10": {
+        "modules": ["PrioProofs.Props.C10"],
+        "rule": "three NTT fields: every power-of-two size up to 2^9 (thorough 2^12): all basis vectors (sizes <= 32) or four of them, random vectors, shorter (zero-padded) inputs, with and without the next-order shift; inverse of each forward transform; root powers for every size; size/capacity violations; Lagrange evaluation at random points and exactly at the nodes; extension from every partial length; doubling; multiplication; monomial helpers; range-check polynomials; non-trivial = all;",
+        "trusted": COMMON_TRUST,
+        "assumptions": ["the model transcribes the loops of ntt.rs/polynomial.rs over arrays; agreement with the code is by correspondence on a basis of the (linear) input space for every tested size"],
+    },
     "C11": {
         "modules": ["PrioProofs.Props.C11"],
         "posthash": True,
